@@ -296,6 +296,8 @@ impl<T> MutexIsh<T> {
     }
 
     pub fn locked<U>(&self, func: impl FnOnce(&mut T) -> U) -> U {
+        #[cfg(unimock_verif)]
+        let _verif_scope = crate::verif::LockScope::enter(self as *const Self as *const () as usize);
         let mut lock = self.inner.lock().unwrap();
         func(&mut *lock)
     }
@@ -310,6 +312,8 @@ impl<T> MutexIsh<T> {
     }
 
     pub fn locked<U>(&self, func: impl FnOnce(&mut T) -> U) -> U {
+        #[cfg(unimock_verif)]
+        let _verif_scope = crate::verif::LockScope::enter(self as *const Self as *const () as usize);
         let mut lock = self.inner.lock();
         func(&mut *lock)
     }
@@ -324,6 +328,8 @@ impl<T> MutexIsh<T> {
     }
 
     pub fn locked<U>(&self, func: impl FnOnce(&mut T) -> U) -> U {
+        #[cfg(unimock_verif)]
+        let _verif_scope = crate::verif::LockScope::enter(self as *const Self as *const () as usize);
         func(&mut self.inner.borrow_mut())
     }
 }
